@@ -204,6 +204,20 @@ def entries : List Entry := [
         let us ← fromHex us; let d ← fromHex d; let w ← fromHex w
         let up := tableFn (← parseTable tu); let u16 := tableFn (← parseTable t16)
         pure (showOutcomeWith toHex (processChallengeToken up u16 (← fromHex tok) us d w (← fromHex lm) (← fromHex nt)))
+      | _ => none },
+  -- spec: whatever the context has seen before, the AUTHENTICATE at the end of the token it returns is a valid answer to
+  -- THIS challenge (its flags decide the character set of the names); the harness appends the AUTHENTICATE and the token
+  { kind := "S", op := "c08.process", run := fun
+      | [_tok, us, _pw, d, w, tu, t16, f, _tl, lm, nt, msg, out] => do
+        if msg == "none" then pure "*" else
+        let f ← u32Arg f; let us ← fromHex us; let d ← fromHex d; let w ← fromHex w
+        let up := tableFn (← parseTable tu); let u16 := tableFn (← parseTable t16)
+        let lm ← fromHex lm; let nt ← fromHex nt
+        let dn := Spec.authName u16 f d
+        let un := Spec.authName u16 f us
+        let wn := Spec.authName u16 f (up w)
+        let m ← fromHex msg
+        pure (if Spec.validAuthenticate m f lm nt dn un wn then "ok " ++ out else "invalid")
       | _ => none }
 ]
 end Driver.C08
